@@ -44,7 +44,7 @@ struct El {
 
 const SHAPES: &[&str] = &[
     "random", "sorted", "reversed", "organ-pipe", "saw-tooth", "all-equal", "two-keys", "ten-keys", "mostly-sorted",
-    "killer", "push-front", "push-middle",
+    "killer", "push-front", "push-middle", "two-runs", "two-runs",
 ];
 
 fn mo3_killer(n: usize) -> Vec<u32> {
@@ -90,6 +90,11 @@ fn gen_keys(rng: &mut Rng, n: usize, shape: &str) -> Vec<u32> {
                 }
             }
             v
+        }
+        "two-runs" => {
+            // two ascending runs of different length
+            let cut = if n > 1 { rng.range(1, n - 1) } else { 0 };
+            (0..n).map(|i| if i < cut { (i * 2) as u32 } else { ((i - cut) * 2 + 1) as u32 }).collect()
         }
         "killer" => mo3_killer(n),
         "push-front" => {
@@ -218,7 +223,17 @@ pub fn run(opts: &Opts, rep: &mut Report) {
             shape = "antiquicksort";
             antiqsort_keys(n, pools[0].as_ref())
         } else {
-            gen_keys(&mut rng, n, shape)
+            let mut keys = gen_keys(&mut rng, n, shape);
+            // every arrangement is also run with its keys collapsed to a few levels (ties inside a nearly sorted structure)
+            if rng.chance(2, 5) && !keys.is_empty() {
+                let levels = *rng.pick(&[2u64, 3, 6, 10, 30]);
+                let max = *keys.iter().max().unwrap() as u64 + 1;
+                for k in keys.iter_mut() {
+                    *k = (*k as u64 * levels / max) as u32;
+                }
+                rep.count("c18.cases-with-keys-collapsed-to-few-levels");
+            }
+            keys
         };
         let input: Vec<El> = keys.iter().enumerate().map(|(i, &k)| El { key: k, id: i as u32 }).collect();
         let total_order = rng.coin();
